@@ -79,7 +79,7 @@ func genFmtCase(t *rapid.T, disagree bool) FmtCase {
 	o := ragen.GenOpt{
 		Rx:       ragen.RxOpt{Stress: 5, MaxDepth: 1},
 		MaxDepth: 3, MaxItems: 6, Flags: true, PrefixSuffix: true, Defs: true, DefsInPS: true,
-		Includes: true, Excepts: true, Pairs: true, Cmdline: true, StoreLoad: true, Noise: true,
+		Includes: true, Excepts: true, Pairs: true, Cmdline: true, StoreLoad: true, Noise: true, TrailWS: true,
 	}
 	g := ragen.GenProgram(t, o)
 	c.Lines = g.Prog.Main
